@@ -261,21 +261,70 @@ func c02Load(t *testing.T, run *Run, desc any) {
 			}
 		}()
 	}
-	redeploys := 0
-	deadline := time.Now().Add(8 * time.Second)
-	for i := 0; i < 200 && time.Now().Before(deadline); i++ {
-		next := addr(b)
-		if i%2 == 1 {
-			next = addr(a)
-		}
-		if err := router.DeployService("svc", []string{next}, server.ServiceOptions{}, to, 10*time.Second, 5*time.Second); err != nil {
+	// twenty bystander services (a snapshot has something to list) and two more services that their own
+	// operators redeploy at the same time: commands overlap, as they do when several apps share a proxy
+	for i := 0; i < 20; i++ {
+		name := fmt.Sprintf("idle%d", i)
+		if err := router.DeployService(name, []string{addr(a)}, server.ServiceOptions{Hosts: []string{name + ".example"}}, to, 10*time.Second, 5*time.Second); err != nil {
 			stop.Store(true)
 			wg.Wait()
-			run.Inconclusive("redeploy %d failed: %v", i, err)
+			run.Inconclusive("deploy of a bystander failed: %v", err)
 			return
 		}
-		redeploys++
 	}
+	var redeploysN, opErrs atomic.Int64
+	var firstErr atomic.Value
+	deadline := time.Now().Add(8 * time.Second)
+	opsDone := make(chan struct{})
+	var ops sync.WaitGroup
+	for o, name := range []string{"svc", "svc2", "svc3"} {
+		ops.Add(1)
+		go func() {
+			defer ops.Done()
+			so := server.ServiceOptions{}
+			if o > 0 {
+				so.Hosts = []string{name + ".example"}
+			}
+			for i := 0; i < 200 && time.Now().Before(deadline); i++ {
+				next := addr(b)
+				if i%2 == 1 {
+					next = addr(a)
+				}
+				if err := router.DeployService(name, []string{next}, so, to, 10*time.Second, 5*time.Second); err != nil {
+					opErrs.Add(1)
+					firstErr.CompareAndSwap(nil, fmt.Sprintf("redeploy %d of %s: %v", i, name, err))
+					return
+				}
+				if o == 0 {
+					redeploysN.Add(1)
+				}
+			}
+		}()
+	}
+	go func() { ops.Wait(); close(opsDone) }()
+	select {
+	case <-opsDone:
+	case <-time.After(2 * time.Minute):
+		// fifteen times what the operators need: they are stuck. Two goroutine dumps decide what this is
+		d1 := allStacks()
+		time.Sleep(5 * time.Second)
+		d2 := allStacks()
+		verdict, what := classifyStall(d1, d2)
+		stop.Store(true)
+		if verdict == "deadlock" || verdict == "spinning" {
+			run.Violate("never-answered:under-load:"+verdict, fmt.Sprintf("three services were being redeployed concurrently while 16 clients called the first one; after %d redeploys and %d answered requests nothing moved any more for two minutes: the proxy is %s (%s) - requests in flight are never answered", redeploysN.Load(), total.Load(), verdict, what), desc, strings.Split(trunc(d2, 40000), "\n"))
+		} else {
+			run.Inconclusive("load scenario stuck for two minutes without a deadlock or a busy loop in the proxy's goroutines (%s)", what)
+		}
+		return
+	}
+	if opErrs.Load() > 0 {
+		stop.Store(true)
+		wg.Wait()
+		run.Inconclusive("%v", firstErr.Load())
+		return
+	}
+	redeploys := int(redeploysN.Load())
 	stop.Store(true)
 	wg.Wait()
 	router.RemoveService("svc")
